@@ -1,11 +1,14 @@
 import Panacea.Driver.CompKey
 import Panacea.Driver.Aol
+import Panacea.Driver.Did
 /-! Model driver: one operation per input line, one answer per output line. -/
 open Panacea Panacea.Driver
 
 structure DState where
   addrs : AddrTable := {}
   aol : AolD := {}
+  sigs : SigTable := {}
+  did : DidD := {}
 
 def stepLine (st : DState) (line : String) : DState × String :=
   let toks := (line.splitOn " ").filter (· ≠ "")
@@ -16,12 +19,21 @@ def stepLine (st : DState) (line : String) : DState × String :=
       let v' := if v = "invalid" then none else Bytes.ofHex v
       ({ st with addrs := st.addrs.add t v' }, "-")
     | none => (st, "bad-op")
+  | ["sig", sg, pk, m] =>
+    match Bytes.ofHex sg, Bytes.ofHex pk, Bytes.ofHex m with
+    | some a, some b, some c => ({ st with sigs := { entries := (a, b, c) :: st.sigs.entries } }, "-")
+    | _, _, _ => (st, "bad-op")
+  | ["reset"] => ({ st with aol := {}, did := {} }, "-")
   | tok :: _ =>
     if tok.startsWith "ck." then
       (st, (compkeyStep st.addrs toks).getD "bad-op")
     else if tok = "reset" || tok = "now" || tok.startsWith "aol." || tok.startsWith "mon.c01." then
       match aolStep st.addrs st.aol toks with
       | some (d, ans) => ({ st with aol := d }, ans)
+      | none => (st, "bad-op")
+    else if tok.startsWith "did." || tok.startsWith "mon.c11." then
+      match didStep st.addrs st.sigs st.did toks with
+      | some (d, ans) => ({ st with did := d }, ans)
       | none => (st, "bad-op")
     else (st, "bad-op")
   | [] => (st, "bad-op")
